@@ -80,14 +80,14 @@ LEVELS = {
   'text': 'Decision tables proved in Lean for all states, payloads and senders: C10_hub (every privileged hub message fails for a sender outside hubPrincipalOk - owner for UpdateConfig/UpdateParams/SetOwner, nominee for AcceptOwnership, dispatcher for BondRewards, '
           'registry for RedelegateProxy, updater or registry for UpdateGlobalIndex, the hub itself for SwapHook, the airdrop registry for ClaimAirdrop, the two registered tokens for Receive), C10_reward, C10_dispatcher, C10_registry, C10_tokens (Mint/Burn), '
           'C10_hub_ownership (nominate -> accept; the ex-owner loses every owner right), C10_token_addresses_write_once; a failed message changes nothing (C20_rejected_changes_nothing). '
-          'Exhaustive matrix on the real contracts: 61 message payloads x 14 sender classes x 4 state classes, every cell compared with the model and judged against the principal table read from the implementation itself.',
+          'Exhaustive matrix on the real contracts: 61 message payloads x 14 sender classes x 4 state classes, every cell compared with the model and judged against the principal table read from the implementation itself. C10_system_hub / C10_system_dispatcher / C10_system_reward_owner: as whole transactions on the composed system - a privileged message from a non-principal fails and leaves every contract and the chain (attached funds included) exactly as they were.',
   'note': 'Trusted: Lean kernel; handler models; the matrix payloads are one representative per variant (the theorems quantify over all payloads). Two-step ownership is proved for the hub; the other three contracts use the same code shape and are covered by the matrix classes 2 and 3.',
   'technique': 'Lean 4 decision-table theorems; exhaustive message x sender x state matrix on the implementation',
  },
  'C11': {
   'text': 'C11_paused_blocks: while paused every hub message except UpdateParams and the migration fails for every sender and payload; C11_paused_exceptions: UpdateParams stays owner-only and the migration changes only wait-list entries (no pool, batch, history, parameter or address); '
           'C11_no_unpause_with_legacy: un-pausing is refused while legacy entries remain and the migration clears the flag only when none remain; C11_pause_unpause_identity: pause;unpause returns exactly the pre-pause state up to the flag representation. '
-          'Matrix on the real hub: every variant x 14 senders while paused (with/without legacy entries), un-pause attempts, migration in steps; 12 histories re-run with an inserted pause cycle and compared.',
+          'Matrix on the real hub: every variant x 14 senders while paused (with/without legacy entries), un-pause attempts, migration in steps; 12 histories re-run with an inserted pause cycle and compared. C11_system_paused: as a whole transaction on the composed system, a top-level hub message other than UpdateParams/Migrate sent to a paused hub fails and changes nothing anywhere.',
   'note': 'Trusted: Lean kernel; hub model; queries are total functions of the state in the model (they do not read the flag) - on the implementation this is observed by the harness querying after every paused cell. Legacy entries are seeded through the public storage prefix as the repo test does.',
   'technique': 'Lean 4 guard theorem + state identity; exhaustive paused matrix and pause-cycle insertion on the implementation',
  },
